@@ -1,21 +1,21 @@
-\* complete alphabet incl. get/has, for -simulate
+\* nested execute_steps (depth 2 and 3, every text/table shape per level, innermost ok/fails) + execute_steps + push/pop
 INIT Init
 NEXT Next
 CONSTANTS
-  OpsAt <- OpsSim
-  UNames = {1, 2}
-  Vals = {1, 2}
-  WithFailed = TRUE
-  WithRoot = TRUE
-  WithUseOr = TRUE
-  WithReads = TRUE
-  WithMode = TRUE
+  OpsAt <- Ops1121
+  UNames = {1}
+  Vals = {1}
+  WithFailed = FALSE
+  WithRoot = FALSE
+  WithUseOr = FALSE
+  WithReads = FALSE
+  WithMode = FALSE
   WithExec = TRUE
-  MaxIds = 3
+  MaxIds = 0
   ArgModes = {0, 1}
-  WithFixtures = TRUE
-  WithAttrs = TRUE
-  NestSet <- NestFew
+  WithFixtures = FALSE
+  WithAttrs = FALSE
+  NestSet <- NestAll
   TwoRuns = FALSE
   OpsB = 0
 INVARIANT Visible
